@@ -183,3 +183,143 @@ def leading_ones_prime(rng, bits, lead, extra):
       p |= 1 << rng.randrange(1, bits - lead)
     if gmpy2.is_prime(p):
       return p
+
+
+# ---------------------------------------------------------------------------------------------
+# C05 families stated by the property text (exact constructions; every function returns the
+# planted pattern too so that the caller can evaluate the clause on the implementation)
+
+def _prime_in_window(rng, base, lowbits, tries=6000):
+  """a prime p with base <= p < base + 2^lowbits (base is a multiple of 2^lowbits), or None."""
+  if lowbits <= 0:
+    return base if gmpy2.is_prime(base) else None
+  span = 1 << lowbits
+  if span <= 2 * tries:
+    cands = [base + k for k in range(1, span, 2)]
+    rng.shuffle(cands)
+  else:
+    cands = (base + (rng.getrandbits(lowbits) | 1) for _ in range(tries))
+  for c in cands:
+    if gmpy2.is_prime(c):
+      return int(c)
+  return None
+
+
+def periodic_pattern(word, w, bits):
+  """the w-bit word repeated and cut to `bits` bits, top aligned: floor(word*2^bits/(2^w-1))
+  (word < 2^w - 1)."""
+  return (word << bits) // ((1 << w) - 1)
+
+
+def periodic_prime(rng, bits, w, lowbits, attempts=40):
+  """prime p of `bits` bits = repetition of a w-bit word (top aligned, cut at the bottom) except
+  for its `lowbits` low-order bits: p XOR pattern < 2^lowbits. Returns (p, word) or None when no
+  such prime was found (short windows / w = 1)."""
+  for _ in range(attempts):
+    if w == 1:
+      pat = (1 << bits) - 1                      # the only 1-bit word with a leading one
+      word = 1
+    else:
+      word = rng.getrandbits(w) | (1 << (w - 1))
+      if word == (1 << w) - 1:
+        pat = (1 << bits) - 1
+      else:
+        pat = periodic_pattern(word, w, bits)
+    base = pat >> lowbits << lowbits
+    p = _prime_in_window(rng, base, lowbits)
+    if p is not None and p.bit_length() == bits:
+      return p, word
+  return None
+
+
+def swap_limbs(x, ws, nlimbs):
+  """swaps the adjacent ws-bit limbs (2j, 2j+1), limbs counted from bit 0."""
+  mask = (1 << ws) - 1
+  out = 0
+  for j in range(0, nlimbs, 2):
+    lo = (x >> (j * ws)) & mask
+    hi = (x >> ((j + 1) * ws)) & mask
+    out |= (lo << ((j + 1) * ws)) | (hi << (j * ws))
+  return out
+
+
+def permuted_denominator(ws, ps):
+  return ((1 << ps) - 1) * ((1 << (ps * ws)) + 1) // ((1 << ws) + 1)
+
+
+def swapped_prime(rng, bits, ps, ws, lowbits, attempts=40):
+  """prime p of `bits` bits (bits a multiple of 2*ws) = the ps-bit word repetition
+  floor(word*2^bits/(2^ps-1)) with adjacent ws-bit limbs swapped, except for `lowbits` low-order
+  bits. Returns (p, word) or None."""
+  assert bits % (2 * ws) == 0
+  for _ in range(attempts):
+    word = rng.getrandbits(ps) | (1 << (ps - 1))
+    if word == (1 << ps) - 1:
+      continue
+    p1 = swap_limbs(periodic_pattern(word, ps, bits), ws, bits // ws)
+    if p1.bit_length() != bits:
+      continue                                    # the swap moved a zero limb to the top
+    base = p1 >> lowbits << lowbits
+    p = _prime_in_window(rng, base, lowbits)
+    if p is not None and p.bit_length() == bits:
+      return p, word
+  return None
+
+
+def two_pattern_primes(rng, bits, w1, w2, lowbits):
+  """both primes are word repetitions (word sizes w1, w2 <= 64) apart from `lowbits` low bits."""
+  a = periodic_prime(rng, bits // 2, w1, lowbits)
+  b = periodic_prime(rng, bits - bits // 2, w2, lowbits)
+  if a is None or b is None or a[0] == b[0]:
+    return None
+  return a[0], b[0]
+
+
+def exact_weight_prime(rng, bits, weight, tries=20000):
+  """prime of exactly `bits` bits and exactly `weight` one-bits (top and bottom bit set), or None."""
+  if weight < 2:
+    return None
+  for _ in range(tries):
+    p = (1 << (bits - 1)) | 1
+    for i in rng.sample(range(1, bits - 1), weight - 2):
+      p |= 1 << i
+    if gmpy2.is_prime(p):
+      return p
+  return None
+
+
+def shared_power_smooth(rng, bits, gfac, p_extra_bits=None, q_smooth=False, smooth_bits=10):
+  """primes p, q with p-1 = 2*g*(squarefree small primes), q-1 = 2*g*(cofactor), where
+  g = prod(r^k for r, k in gfac) may contain prime POWERS. q-1's cofactor is a large prime unless
+  q_smooth. Returns (p, q, g) or None."""
+  g = 1
+  for r, k in gfac:
+    g *= r ** k
+  used = {r for r, _ in gfac} | {2}
+  small = [x for x in range(3, 1 << smooth_bits) if gmpy2.is_prime(x) and x not in used]
+
+  def smooth_mult(target_bits):
+    for _ in range(3000):
+      rng.shuffle(small)
+      m = 2 * g
+      for x in small:
+        if m.bit_length() >= target_bits - 1:
+          break
+        m *= x
+      if gmpy2.is_prime(m + 1):
+        return m + 1
+    return None
+
+  def rough_mult(target_bits):
+    cb = max(22, target_bits - (2 * g).bit_length())
+    for _ in range(20000):
+      c = int(gmpy2.next_prime(rng.getrandbits(cb) | (1 << (cb - 1))))
+      if gmpy2.is_prime(2 * g * c + 1):
+        return 2 * g * c + 1
+    return None
+  tb = max(bits // 2, (2 * g).bit_length() + 24)
+  p = smooth_mult(tb)
+  q = smooth_mult(tb + 2) if q_smooth else rough_mult(tb)
+  if p and q and p != q:
+    return p, q, g
+  return None
